@@ -3,6 +3,8 @@
   duplicates, the common suffix computed by swizzle, unflatten's loops, shape estimation.
 -/
 import FtModel.Meta
+import FtModel.Coiter
+import FtProofs.Lemmas.SplitSpec
 set_option linter.unusedSectionVars false
 set_option linter.unusedSimpArgs false
 set_option linter.unusedVariables false
@@ -107,7 +109,7 @@ theorem swizLen_drop (ids order : List RId) (hl : order.length = ids.length) :
   rw [hl] at h' ⊢
   exact h'.symm
 
-theorem wfB_iff (m : Meta) : m.wfB = true ↔
+theorem metaWfB_iff (m : Meta) : m.wfB = true ↔
     m.fmts.length = m.ids.length ∧ (∀ s, m.shape = some s → s.length = m.ids.length) ∧ m.ids.Nodup := by
   unfold Meta.wfB
   cases hs : m.shape with
@@ -223,5 +225,189 @@ theorem unflShape_pair : ∀ (l : Nat) (pre post : List Sx) (seg : List Sx), seg
     simp only [List.length_append, List.length_cons, List.length_nil, List.append_assoc,
       List.cons_append, List.nil_append] at ih ⊢
     exact ih
+
+/-! ### the bounds invariant on integer coordinates -/
+
+theorem inShape_n (c s : Int) : Sx.inShape (.n c) (.n s) = (decide (0 ≤ c) && decide (c < s)) := rfl
+
+theorem inRange_n (lo hi c : Int) :
+    Sx.inRange (.n lo) (.n hi) (.n c) = (decide (lo ≤ c) && decide (c < hi)) := by
+  unfold Sx.inRange Sx.cmp
+  simp only [compare, compareOfLessAndEq]
+  by_cases h1 : lo < c <;> by_cases h2 : lo = c <;> by_cases h3 : c < hi <;> by_cases h4 : c = hi <;>
+    simp [h1, h2, h3, h4] <;> omega
+
+/-! ### shape estimation -/
+
+theorem ascB_iff : ∀ (cs : List Int), ascB cs = true ↔ cs.Pairwise (· < ·)
+  | [] => by simp [ascB]
+  | [a] => by simp [ascB]
+  | a :: b :: r => by
+    rw [ascB, Bool.and_eq_true, decide_eq_true_eq, ascB_iff (b :: r), List.pairwise_cons (a := a)]
+    constructor
+    · rintro ⟨hab, hp⟩
+      refine ⟨?_, hp⟩
+      intro x hx
+      rcases List.mem_cons.1 hx with rfl | hx
+      · exact hab
+      · exact Int.lt_trans hab ((List.pairwise_cons.1 hp).1 x hx)
+    · rintro ⟨h1, hp⟩
+      exact ⟨h1 b (List.mem_cons_self ..), hp⟩
+
+/-- in an ascending list every coordinate is at most the last one -/
+theorem le_getLast : ∀ (cs : List Int), cs.Pairwise (· < ·) → ∀ c ∈ cs, ∃ l, cs.getLast? = some l ∧ c ≤ l
+  | [], _, c, hc => by cases hc
+  | [a], _, c, hc => by
+    rcases List.mem_cons.1 hc with rfl | h
+    · exact ⟨c, rfl, Int.le_refl _⟩
+    · cases h
+  | a :: b :: r, hp, c, hc => by
+    have hp' := List.pairwise_cons.1 hp
+    rw [List.getLast?_cons_cons]
+    rcases List.mem_cons.1 hc with rfl | h
+    · obtain ⟨l, hl, _⟩ := le_getLast (b :: r) hp'.2 b (List.mem_cons_self ..)
+      refine ⟨l, hl, ?_⟩
+      have hm : l ∈ b :: r := List.mem_of_getLast? hl
+      exact Int.le_of_lt (hp'.1 l hm)
+    · exact le_getLast (b :: r) hp'.2 c h
+
+theorem lt_estFiber (cs : List Int) (hp : cs.Pairwise (· < ·)) (c : Int) (hc : c ∈ cs) : c < estFiber cs := by
+  obtain ⟨l, hl, hle⟩ := le_getLast cs hp c hc
+  unfold estFiber
+  rw [hl]; simp only; omega
+
+theorem estFiber_nonneg (cs : List Int) (h : ∀ c ∈ cs, 0 ≤ c) : 0 ≤ estFiber cs := by
+  unfold estFiber
+  cases hl : cs.getLast? with
+  | none => simp
+  | some l => have := h l (List.mem_of_getLast? hl); simp only; omega
+
+theorem estStep_ge (acc : Option Int) (cs : List Int) (ha : 0 ≤ acc.getD 0) (hc : 0 ≤ estFiber cs) :
+    acc.getD 0 ≤ (estStep acc cs).getD 0 ∧ estFiber cs ≤ (estStep acc cs).getD 0 := by
+  unfold estStep
+  cases acc with
+  | none =>
+    by_cases h : estFiber cs = 0
+    · simp [h]
+    · simp [h]; omega
+  | some o =>
+    have ha' : 0 ≤ o := by simpa using ha
+    by_cases h : estFiber cs = 0
+    · simp [h]; omega
+    · simp [h]; omega
+
+theorem foldl_estStep_ge : ∀ (fs : List (List Int)) (acc : Option Int), 0 ≤ acc.getD 0 →
+    (∀ cs ∈ fs, 0 ≤ estFiber cs) →
+    acc.getD 0 ≤ (fs.foldl estStep acc).getD 0 ∧ ∀ cs ∈ fs, estFiber cs ≤ (fs.foldl estStep acc).getD 0
+  | [], acc, _, _ => ⟨Int.le_refl _, fun _ h => by cases h⟩
+  | f :: fs, acc, ha, hf => by
+    have h1 := estStep_ge acc f ha (hf f (List.mem_cons_self ..))
+    have ha' : 0 ≤ (estStep acc f).getD 0 := Int.le_trans ha h1.1
+    have ih := foldl_estStep_ge fs (estStep acc f) ha' (fun cs h => hf cs (List.mem_cons_of_mem _ h))
+    rw [List.foldl_cons]
+    refine ⟨Int.le_trans h1.1 ih.1, ?_⟩
+    intro cs hcs
+    rcases List.mem_cons.1 hcs with rfl | h
+    · exact Int.le_trans h1.2 ih.1
+    · exact ih.2 cs h
+
+/-- the estimate of a rank covers every coordinate stored in the rank -/
+theorem lt_estLevel (fs : List (List Int)) (hasc : ∀ cs ∈ fs, cs.Pairwise (· < ·))
+    (hnn : ∀ cs ∈ fs, ∀ c ∈ cs, 0 ≤ c) (cs : List Int) (hcs : cs ∈ fs) (c : Int) (hc : c ∈ cs) :
+    c < estLevel fs := by
+  have h := (foldl_estStep_ge fs none (by simp) (fun x hx => estFiber_nonneg x (hnn x hx))).2 cs hcs
+  have := lt_estFiber cs (hasc cs hcs) c hc
+  unfold estLevel
+  omega
+
+/-! ### flattening two levels: the child ranges' minimum / maximum -/
+
+section flat
+variable {π : Type}
+
+theorem foldl_min_le (g : π → Int) : ∀ (r : List π) (a : Int),
+    r.foldl (fun a x => min a (g x)) a ≤ a ∧ ∀ x ∈ r, r.foldl (fun a x => min a (g x)) a ≤ g x
+  | [], a => ⟨Int.le_refl _, fun _ h => by cases h⟩
+  | y :: r, a => by
+    have ih := foldl_min_le g r (min a (g y))
+    rw [List.foldl_cons]
+    refine ⟨by have := ih.1; omega, ?_⟩
+    intro x hx
+    rcases List.mem_cons.1 hx with rfl | h
+    · have := ih.1; omega
+    · exact ih.2 x h
+
+theorem le_foldl_max (g : π → Int) : ∀ (r : List π) (a : Int),
+    a ≤ r.foldl (fun a x => max a (g x)) a ∧ ∀ x ∈ r, g x ≤ r.foldl (fun a x => max a (g x)) a
+  | [], a => ⟨Int.le_refl _, fun _ h => by cases h⟩
+  | y :: r, a => by
+    have ih := le_foldl_max g r (max a (g y))
+    rw [List.foldl_cons]
+    refine ⟨by have := ih.1; omega, ?_⟩
+    intro x hx
+    rcases List.mem_cons.1 hx with rfl | h
+    · have := ih.1; omega
+    · exact ih.2 x h
+
+theorem childLo_le (f : Fib Int (AF π)) (rs : Int) (h : childLo f = some rs) : ∀ e ∈ f, rs ≤ e.2.lo := by
+  cases f with
+  | nil => cases h
+  | cons e r =>
+    simp only [childLo, Option.some.injEq] at h
+    subst h
+    have := foldl_min_le (fun x : Int × AF π => x.2.lo) r e.2.lo
+    intro x hx
+    rcases List.mem_cons.1 hx with rfl | hx
+    · exact this.1
+    · exact this.2 x hx
+
+theorem le_childHi (f : Fib Int (AF π)) (re : Int) (h : childHi f = some re) : ∀ e ∈ f, e.2.hi ≤ re := by
+  cases f with
+  | nil => cases h
+  | cons e r =>
+    simp only [childHi, Option.some.injEq] at h
+    subst h
+    have := le_foldl_max (fun x : Int × AF π => x.2.hi) r e.2.hi
+    intro x hx
+    rcases List.mem_cons.1 hx with rfl | hx
+    · exact this.1
+    · exact this.2 x hx
+
+end flat
+
+/-! ### two-operand merges keep the first operand's coordinates -/
+
+section merge
+variable {α β : Type}
+
+theorem andMerge_coord_mem (a : Fib Int α) (b : Fib Int β) : ∀ x ∈ andMerge a b, ∃ e ∈ a, e.1 = x.1 := by
+  fun_induction andMerge a b with
+  | case1 b => intro x hx; cases hx
+  | case2 e r => intro x hx; cases hx
+  | case3 pa ra ca pb rb ih =>
+    intro x hx
+    rcases List.mem_cons.1 hx with rfl | hx
+    · exact ⟨_, List.mem_cons_self .., rfl⟩
+    · obtain ⟨e, he, h⟩ := ih x hx
+      exact ⟨e, List.mem_cons_of_mem _ he, h⟩
+  | case4 ca pa ra cb pb rb hne hlt ih =>
+    intro x hx
+    obtain ⟨e, he, h⟩ := ih x hx
+    exact ⟨e, List.mem_cons_of_mem _ he, h⟩
+  | case5 ca pa ra cb pb rb hne hnlt ih => exact ih
+
+theorem subMerge_mem (a : Fib Int α) (b : Fib Int β) : ∀ x ∈ subMerge a b, x ∈ a := by
+  fun_induction subMerge a b with
+  | case1 b => intro x hx; cases hx
+  | case2 e r => intro x hx; exact hx
+  | case3 pa ra ca pb rb ih => intro x hx; exact List.mem_cons_of_mem _ (ih x hx)
+  | case4 ca pa ra cb pb rb hne hlt ih =>
+    intro x hx
+    rcases List.mem_cons.1 hx with rfl | hx
+    · exact List.mem_cons_self ..
+    · exact List.mem_cons_of_mem _ (ih x hx)
+  | case5 ca pa ra cb pb rb hne hnlt ih => exact ih
+
+end merge
 
 end Ft.C14
